@@ -478,7 +478,10 @@ class Gen:
             return None
         src = src if src is not None else self.choice(hs)
         shape = self.t[src].val.shape
-        cond = self.rand_vals(shape, "b1")
+        cond = self.rand_vals(self._sub_shape(shape) if self.coin(0.25) else shape, "b1")
+        if self.coin(0.3):
+            # NumPy takes any array as the condition (non-zero = true): 0/1 masks of integer type
+            cond = cond.astype(self.choice([np.int64, np.uint8, np.int32]))
         other = self.operand_for(shape)
         refs = [{"t": src}, other]
         if self.coin(0.5):
